@@ -453,7 +453,7 @@ def check(rep: Report, tier: str, seed: int) -> None:
                     rep.broke(f"call-level correspondence: line={l[:300]} model={m[:120]} impl={e[:120]}")
         rep.extra["call_level_disagreements"] = bad
         rep.extra["call_level_cases"] = len(l1)
-    if rep.broken and not rep.failing:
+    if rep.broken and not rep.unknown_failing():
         search(rep, seed, 400 if tier == "quick" else 8000)
 
 
